@@ -641,6 +641,66 @@ def rule_wrapnode(ctx, rep):
     r.note("%d self-wrapping variants with a delimiter production" % n)
 
 
+def rule_listdelim(ctx, rep, rid="R-C10-listdelim"):
+    """A list field (`a[i, j]`, `f(x, y)`) is written as one pair of delimiters around the elements, separated by commas - that is how the
+    grammar reads it back into one list.  A delimiter written inside the loop over the elements (`a [ i ] [ j ]`) is text the grammar
+    reads as nested nodes: accepted, stable under re-rendering, and a different tree."""
+    from rules.c04_progress import natural_loops
+    r = rep.rule(rid, "no bracket or parenthesis is written inside a loop over the elements of a list: the delimiters of a list enclose the whole list",
+                 floor=0, floor_what="delimiters written inside loops")
+    n = 0
+    for b in sorted(ctx.prog.bodies.values(), key=lambda x: x.id):
+        im = b.f.get("impl") or {}
+        if b.f["crate"] != "ironplc_plc2plc" or not (im.get("self") == R or (b.f.get("parent") and R in b.f["parent"])) or "::test" in norm(b.id):
+            continue
+        loops = natural_loops(b)
+        inloop = set()
+        for h, body in loops.items():
+            if any((c.u or "").endswith("Iterator::next") and c.bb in body for c in b.calls()):
+                inloop |= body
+        k = 0
+        for c in sorted(b.calls(), key=lambda c: (c.loc[0], c.loc[1])):
+            if c.bb in inloop and (c.callee or "").endswith(("::write_ws", "::write")) and len(c.args) > 1:
+                kk = b.const_of(c.args[1])
+                txt = kk[3].get("str", "") if kk is not None and len(kk) > 3 and isinstance(kk[3], dict) else ""
+                if txt.strip() in ("[", "]", "(", ")"):
+                    k += 1
+                    n += 1
+                    r.finding("%s|`%s` in loop#%d" % (b.f["name"], txt.strip(), k), loc_str(b.f, c.loc), "`%s` is written once per element of a list: the text parses as nested nodes, not as the list "
+                              "that was rendered (`grid[1, 2]` -> `grid [ 1 ] [ 2 ]` -> array-of-array access)" % txt.strip())
+    if not n:
+        r.count_override = 1
+        r.note("no delimiter is written inside a loop today (zero expected; positive example: seeded/C10-K)")
+
+
+def rule_intwidth(ctx, rep, rid="R-C10-intwidth"):
+    """The renderer writes every integer in decimal, whatever base it was read in.  The rendered text is accepted only if the decimal
+    reader accepts every value the based readers (16#, 8#, 2#) can produce: all readers of `Integer` parse into the same integer type."""
+    r = rep.rule(rid, "all readers of an integer literal (decimal, 16#, 8#, 2#) parse into the same integer type: a value read in one base and written in decimal is accepted again",
+                 floor=4, floor_what="integer readers")
+    from rules.panics import TY_MAX
+    found = []
+    for b in sorted(ctx.prog.bodies.values(), key=lambda x: x.id):
+        if b.f["crate"] != "ironplc_dsl" or "common::Integer::" not in norm(b.id) or "::test" in norm(b.id):
+            continue
+        for c in b.calls():
+            nm = (c.callee or "")
+            if nm.endswith(("num::from_str_radix", "str::parse")) or (c.u or "").endswith("FromStr::from_str"):
+                m = re.search(r"Result<([iu](?:8|16|32|64|128|size))\b", b.local_ty(c.dest[0]) or "")
+                if m:
+                    found.append((norm(b.id).split("::")[-1], m.group(1), b, c))
+    if not found:
+        rep.error(rid, "no integer reader found in ironplc_dsl::common::Integer")
+        return
+    widest = max(TY_MAX.get(t, 0) for _, t, _, _ in found)
+    for fn, t, b, c in found:
+        if TY_MAX.get(t, 0) == widest and not t.startswith("i"):
+            r.ok("Integer::%s|%s" % (fn, t), loc_str(b.f, c.loc))
+        else:
+            r.finding("Integer::%s|%s|narrower" % (fn, t), loc_str(b.f, c.loc), "Integer::%s parses into %s while another reader accepts values up to %d: such a value is written in decimal by the "
+                      "renderer and then rejected by this reader (`16#8000_0000_0000_0000` -> `9223372036854775808` -> syntax error)" % (fn, t, widest))
+
+
 def rule_durprec(ctx, rep, rid="R-C10-durprec"):
     """A duration is written from one accessor of time::Duration.  An accessor that counts whole seconds (or minutes, hours, days,
     weeks) drops the sub-second part, so a writer that uses one must also read the sub-second part (subsec_*) - otherwise `T#60.5s`
@@ -696,6 +756,8 @@ def run(ctx, rep):
     rule_post(ctx, rep)
     rule_wrapnode(ctx, rep)
     rule_durprec(ctx, rep)
+    rule_listdelim(ctx, rep)
+    rule_intwidth(ctx, rep)
     # the renderer never parenthesises a unary expression: that is only right while the grammar binds unary operators tightest
     from rules.c01 import rule_prec
     rule_prec(ctx, rep, ctx.peg, rid="R-C10-prec")
